@@ -74,8 +74,19 @@ impl Report {
     pub fn violation(&mut self, property: &str, signature: String, detail: impl FnOnce() -> String, replay: impl FnOnce() -> String) {
         let n = self.viol_sigs.entry(format!("{}|{}", property, signature)).or_insert(0);
         *n += 1;
-        if *n == 1 && self.violations.len() < 200 {
-            self.violations.push(Violation { property: property.to_string(), signature, detail: detail(), replay: replay() });
+        if *n == 1 {
+            if self.violations.len() < 200 {
+                self.violations.push(Violation { property: property.to_string(), signature, detail: detail(), replay: replay() });
+            }
+        } else if *n <= 64 {
+            // keep the shortest witness seen among the first occurrences
+            let d = detail();
+            if let Some(v) = self.violations.iter_mut().find(|v| v.property == property && v.signature == signature) {
+                if d.len() < v.detail.len() {
+                    v.detail = d;
+                    v.replay = replay();
+                }
+            }
         }
     }
     pub fn merge(&mut self, o: Report) {
@@ -97,10 +108,16 @@ impl Report {
             }
         }
         for v in o.violations {
-            let key = format!("{}|{}", v.property, v.signature);
-            if !self.viol_sigs.contains_key(&key) || !self.violations.iter().any(|x| x.property == v.property && x.signature == v.signature) {
-                if self.violations.len() < 400 {
-                    self.violations.push(v);
+            match self.violations.iter_mut().find(|x| x.property == v.property && x.signature == v.signature) {
+                Some(x) => {
+                    if v.detail.len() < x.detail.len() {
+                        *x = v;
+                    }
+                }
+                None => {
+                    if self.violations.len() < 400 {
+                        self.violations.push(v);
+                    }
                 }
             }
         }
